@@ -208,7 +208,12 @@ func runC18(c *core.Ctx) {
 					}
 					call, isCall := core.Unwrap(bin.X).(*ssa.Call)
 					k, isK := core.ConstInt(bin.Y)
-					if isCall && isK && strings.HasSuffix(core.CalleeName(core.NormCall(&call.Call)), ".CountAbsentTimes") && bin.Op == token.GTR && f.Truth && k == 12 {
+					if !isCall || !isK || !strings.HasSuffix(core.CalleeName(core.NormCall(&call.Call)), ".CountAbsentTimes") {
+						continue
+					}
+					// count > 12, in any spelling: `> 12` true, `>= 13` true, `<= 12` false, `< 13` false
+					switch {
+					case bin.Op == token.GTR && f.Truth && k == 12, bin.Op == token.GEQ && f.Truth && k == 13, bin.Op == token.LEQ && !f.Truth && k == 12, bin.Op == token.LSS && !f.Truth && k == 13:
 						return true
 					}
 				}
@@ -348,7 +353,7 @@ func runC18(c *core.Ctx) {
 			if isNil(bin.Y) && strings.Contains(px, "GetByTmAddress(") && ((bin.Op == token.EQL && !f.Truth) || (bin.Op == token.NEQ && f.Truth)) {
 				sawNotValidator = true
 			}
-			if strings.HasSuffix(px, ".Status") && bin.Op == token.EQL && !f.Truth {
+			if strings.HasSuffix(px, ".Status") && ((bin.Op == token.EQL && !f.Truth) || (bin.Op == token.NEQ && f.Truth)) {
 				if k, isK := core.ConstInt(bin.Y); isK && k == 1 {
 					sawOffline = true
 				}
